@@ -37,6 +37,7 @@ type FileSpec struct {
 type ProcSpec struct {
 	Program      string   `json:"program"`
 	Statements   []string `json:"statements,omitempty"` // shell mode: one Execute per entry
+	Repeats      []int    `json:"repeats,omitempty"`    // shell mode: execute entry i this many times (same syntax tree); default 1
 	CPU          int      `json:"cpu"`
 	WaitTimeoutS float64  `json:"wait_timeout_s"`
 	RetryDelayNs int64    `json:"retry_delay_ns"`
